@@ -355,7 +355,12 @@ func (d *driver) execute(rc runCfg) runOutcome {
 	}
 	c.LogCase(rc.ID, rc.key(), " ", run.Args[0])
 	res := d.exec(run)
-	if res.TimedOut && classifyDump(string(res.Stderr)).Verdict == "inconclusive" {
+	if res.TimedOut && endedByItself(res) {
+		// the process finished normally in the very moment the watchdog fired: it terminated
+		res.TimedOut = false
+		c.Count("finished_as_the_watchdog_fired", 1)
+	}
+	if v := classifyDump(string(res.Stderr)).Verdict; res.TimedOut && (v == "inconclusive" || v == "no-dump") {
 		// The watchdog fired but the dump shows live work (a loaded machine): the same case is run
 		// once more with three times the budget. The verdict still comes from what that run does
 		// (it finishes, or its dump is classified) - never from the clock.
@@ -366,6 +371,9 @@ func (d *driver) execute(rc runCfg) runOutcome {
 		_ = os.Remove(tracePath)
 		run.Timeout = 3 * watchdog()
 		res = d.exec(run)
+		if res.TimedOut && endedByItself(res) {
+			res.TimedOut = false
+		}
 		if !res.TimedOut {
 			c.Count("watchdog_retries_finished", 1)
 		}
@@ -409,6 +417,12 @@ func (d *driver) execute(rc runCfg) runOutcome {
 	// as non-trivial; result correctness is other properties' business)
 	out.Outcome = designed(w, rc, res, out.Rows)
 	return out
+}
+
+// endedByItself: the watchdog fired, but the process was not killed by a signal and printed no
+// goroutine dump - it had just reached its own exit.
+func endedByItself(res cli.Result) bool {
+	return res.Signal == "" && res.Exit != 2 && res.Exit >= 0 && len(parseDump(string(res.Stderr))) == 0
 }
 
 func globAll(pat string) []string {
